@@ -26,6 +26,7 @@ BOUNDS = {
     "quick": "H,W<=5, all kH<=H,kW<=W (even, odd, 1x1, 1xk, kx1): all tap x pixel impulse pairs; builders + restorations for H,W<=4 with 3 kernel kinds x lambda in {2^-10,1e-3,0.1,1,10} (+0 where invertible); gaussian radius 0..2, motion length 1..5 x 5 angles",
     "thorough": "H,W<=7 impulses; restorations H,W<=6",
 }
+THOROUGH_STREAMS = 8
 WALL_BUDGET = {"quick": 300, "thorough": 2400}
 ASSUMPTIONS = ["FFT results compared with the index-level definition to 1e-12 (absolute, entries O(1))", "restoration reference: numpy.linalg.solve on the model's explicit N x N matrix (N <= 25/36)"]
 LAMS = [2.0 ** -10, 1e-3, 0.1, 1.0, 10.0]
